@@ -434,7 +434,86 @@ def make_models(extra_numpy=None):
         if len(a) < 2 or not isinstance(a[1], int):
             raise Unsupported("itertools.repeat without a concrete count")
         return ops.IterVal(iter([a[0]] * a[1]))
-    M["itertools"] = ExtModule("itertools", {"islice": Builtin("itertools.islice", islice), "chain": Builtin("itertools.chain", chain),
+    import itertools as _itl
+
+    def accumulate(I, a, k):
+        f = a[1] if len(a) > 1 else k.get("func")
+        items = list(ops.iterate(I, a[0]))
+        out, acc, started = [], k.get("initial"), "initial" in k and k["initial"] is not None
+        if started:
+            out.append(acc)
+        for x in items:
+            if not started:
+                acc, started = x, True
+            else:
+                acc = I.call(f, [acc, x], {}) if f is not None else ops.binop(I, "+", acc, x)
+            out.append(acc)
+        return ops.IterVal(iter(out))
+
+    def product(I, a, k):
+        rep = k.get("repeat", 1)
+        if not isinstance(rep, int) or set(k) - {"repeat"}:
+            raise Unsupported("itertools.product with a symbolic repeat")
+        pools = [list(ops.iterate(I, x)) for x in a] * rep
+        return ops.IterVal(iter(list(_itl.product(*pools))))
+
+    def pairwise(I, a, k):
+        items = list(ops.iterate(I, a[0]))
+        return ops.IterVal(iter(list(zip(items, items[1:]))))
+
+    def compress(I, a, k):
+        data, sel = list(ops.iterate(I, a[0])), list(ops.iterate(I, a[1]))
+        return ops.IterVal(iter([d for d, s_ in zip(data, sel) if ops.truth(I, s_)]))
+
+    def zip_longest(I, a, k):
+        if set(k) - {"fillvalue"}:
+            raise PyExc("TypeError", ("zip_longest() got an unexpected keyword argument",))
+        return ops.IterVal(iter(list(_itl.zip_longest(*[list(ops.iterate(I, x)) for x in a], fillvalue=k.get("fillvalue")))))
+
+    def takewhile(I, a, k):
+        def gen():
+            for x in ops.iterate(I, a[1]):
+                if not ops.truth(I, I.call(a[0], [x], {})):
+                    return
+                yield x
+        return ops.IterVal(gen())
+
+    def dropwhile(I, a, k):
+        def gen():
+            dropping = True
+            for x in ops.iterate(I, a[1]):
+                if dropping and ops.truth(I, I.call(a[0], [x], {})):
+                    continue
+                dropping = False
+                yield x
+        return ops.IterVal(gen())
+
+    def count(I, a, k):
+        start = a[0] if a else k.get("start", 0)
+        step = a[1] if len(a) > 1 else k.get("step", 1)
+
+        def gen():
+            v = start
+            for _ in range(100000):
+                yield v
+                v = ops.binop(I, "+", v, step)
+            raise Unsupported("itertools.count consumed beyond 100000 items")
+        return ops.IterVal(gen())
+
+    def combinations(I, a, k):
+        if not isinstance(a[1], int):
+            raise Unsupported("itertools.combinations with a symbolic size")
+        return ops.IterVal(iter(list(_itl.combinations(list(ops.iterate(I, a[0])), a[1]))))
+
+    def permutations(I, a, k):
+        r = a[1] if len(a) > 1 else None
+        if r is not None and not isinstance(r, int):
+            raise Unsupported("itertools.permutations with a symbolic size")
+        return ops.IterVal(iter(list(_itl.permutations(list(ops.iterate(I, a[0])), r))))
+    more_itertools = {"accumulate": accumulate, "product": product, "pairwise": pairwise, "compress": compress, "zip_longest": zip_longest,
+                      "takewhile": takewhile, "dropwhile": dropwhile, "count": count, "combinations": combinations, "permutations": permutations}
+    M["itertools"] = ExtModule("itertools", {**{nm: Builtin("itertools." + nm, fn) for nm, fn in more_itertools.items()},
+                                             "islice": Builtin("itertools.islice", islice), "chain": Builtin("itertools.chain", chain),
                                              "starmap": Builtin("itertools.starmap", starmap), "repeat": Builtin("itertools.repeat", repeat)})
     M["operator"] = ExtModule("operator", {
         "truediv": Builtin("operator.truediv", lambda I, a, k: ops.binop(I, "/", a[0], a[1])),
